@@ -44,7 +44,7 @@ FindField(T, key) ==
 Assignable(kind, v) == CASE kind = "int" -> v.t = "int" [] kind = "float" -> v.t = "float" [] kind = "string" -> v.t = "str"
                          [] kind = "bool" -> v.t = "bool" [] kind = "any" -> v.t # "nil" [] OTHER -> FALSE
 NameKey == <<78, 97, 109, 101>>
-HasEmbedded(T) == \E i \in 1..Len(T.fields) : T.fields[i].kind = "embedded"
+HasEmbedded(T) == \E i \in 1..Len(T.fields) : T.fields[i].kind \in {"embedded", "embeddedptr"}
 
 \* three-valued combination: error dominates, then any
 Worst(a, b) == IF a = "error" \/ b = "error" THEN "error" ELSE IF a = "any" \/ b = "any" THEN "any" ELSE "nil"
